@@ -65,11 +65,12 @@ PROPS = {
                  'a skiplist operation is one atomic step of the model (C13); keys are modelled as Nat under <, standing for any lawful total order'],
     ),
     'C01': dict(
-        modules=['NitroVerif.Props.C01'],
+        modules=['NitroVerif.Props.C01', 'NitroVerif.Props.C01c'],
         runs=[('mvcc', gens.gen_mvcc, 300, 30000), ('mvcc', gens.gen_mvcc_iter, 150, 10000)],
+        iruns=[('mvccconc', gens.gen_mvccconc, 100, 5000)],
         keep_prefix=1,
         level='proof',
-        level_text='C01_view_invariant, C01_content_fixed, C01_scan and C01_scan_interleaved (an open snapshot presents exactly the content fixed at its creation, whatever operations, snapshot closes and collections are interleaved with the scan) are proved for every reachable state of the MVCC model; the interleaving with concurrent goroutines inside one iterator step is not part of this model (see DESIGN.md, C01)',
+        level_text='C01_view_invariant, C01_content_fixed, C01_scan and C01_scan_interleaved (an open snapshot presents exactly the content fixed at its creation, whatever operations, snapshot closes and collections are interleaved with the scan) are proved for every reachable state of the MVCC model; for a reader stepping concurrently with writers, closes and collection jobs the small-step model proves C01_conc_scan_no_duplicates_partial and C01_conc_cursor_monotone (no version delivered twice, cursor monotone; C01_unfixed_duplicate_witness is the kernel-checked witness of defect D22) and the steered engine validates such schedules',
         trusted=['Lean 4 kernel', 'tools/gofacts translation of skipUnwanted, comparators, gc frontier test and skeletons',
                  'differential run: after random histories every open snapshot is scanned (item by item, with mutations in between) and compared with the model',
                  'granularity: one skiplist operation = one atomic step; collection is performed at the Close that enables it'],
@@ -96,7 +97,7 @@ PROPS = {
     'C06': dict(
         modules=['NitroVerif.Props.C06', 'NitroVerif.Props.C06Handoff'],
         runs=[('mvcc', gens.gen_mvcc, 300, 30000), ('mvcc', gens.gen_mvcc_mm, 100, 10000)],
-        iruns=[('refcount', gens.gen_refcount, 100, 4000)],
+        iruns=[('refcount', gens.gen_refcount, 100, 4000), ('mvccconc', gens.gen_mvccconc, 80, 4000)],
         keep_prefix=1,
         level='proof',
         level_text='C06_safety_seq, C06_stays_present and C06_exact_at_quiescence_seq (in-order characterisation: after collection the store is the alive versions plus those with dead > lastGCSn, and lastGCSn+1 is the oldest live snapshot) on the MVCC model; C06_handoff_quiescent (no closing order or interleaving of Close/GC leaves a collectable snapshot behind at quiescence) on the small-step collector model. The differential run compares node count, statistics, lastGCSn after gcwait',
